@@ -1,5 +1,5 @@
 (* Dispatch.v — one Gallina entry point for both evaluators: a protocol line in, a result line out. *)
-From MRS Require Import Model.Base Model.OpsAddress Model.OpsAmount Model.OpsBasic Model.OpsCodec Model.OpsCurve.
+From MRS Require Import Model.Base Model.OpsAddress Model.OpsAmount Model.OpsBasic Model.OpsCodec Model.OpsCurve Model.OpsHash.
 From Coq Require Import String Ascii.
 Open Scope string_scope.
 
@@ -12,7 +12,8 @@ Definition all_ops : list (string -> list string -> option string) :=
     ops_amount;
     ops_basic;
     ops_codec;
-    ops_curve ].
+    ops_curve;
+    ops_hash ].
 
 Definition run_line (line : string) : string :=
   match words line with
